@@ -1,5 +1,7 @@
 """C03 no missed or late match: step predictor (naive re-search model)."""
 from . import _expect_common as X
+from . import _async_model as AM
+from ..core.runner import split_range
 from ..monitors.expect_oracles import step_pred
 
 ID = 'C03'
@@ -7,13 +9,26 @@ LEVEL = 'exploration'
 RULE = ('scripted histories; the naive model (search all pending text, or its last W characters, after every read) '
         'is run on the same script and every engine-level call must end at the same read with the same '
         '(index|exception, before, after, pending). non-trivial = the call consumed >=2 reads and the reported '
-        'occurrence straddles the last read boundary; distinct by (case, call position)')
+        'occurrence straddles the last read boundary; distinct by (case, call position). The same model is applied to the '
+        'asyncio read path (expect*(async_=True) on a pipe, delivery units released one per "no match yet"), including awaits '
+        'the caller abandons and text that then arrives while no expect is waiting')
 ASSUMPTIONS = ['models/expect_ref.py is the naive procedure of the property text (slice semantics for windows)',
                'timeout=0 performs at least one read; how many further immediate reads is not specified']
-REQUIRED = ['steps_compared', 'matches_after_2plus_reads', 'occurrence_straddles_read_boundary']
-plan = X.plan
+REQUIRED = ['steps_compared', 'matches_after_2plus_reads', 'occurrence_straddles_read_boundary', 'async_model_calls',
+            'async_model_idle_chunks']
+
+
+def plan(tier, seed):
+    specs = X.plan(tier, seed)
+    n, k = (320, 8) if tier == 'quick' else (8000, 16)
+    for i, (a, b) in enumerate(split_range(n, k)):
+        specs.append({'gen': 'async-model', 'n': b - a, 'shard': 300 + i, 'seed': seed, 'tier': tier})
+    return specs
 
 
 def run_shard(spec, acc):
     spec = dict(spec, prop=ID)
+    if spec.get('gen') == 'async-model' or (isinstance(spec.get('replay'), dict) and 'calls' in spec['replay']
+                                            and 'idle' in (spec['replay']['calls'] or [{}])[0]):
+        return AM.run(spec, acc)
     X.drive(spec, acc, lambda run, acc: (lambda r, st: step_pred(r, st, acc)))
